@@ -9,19 +9,24 @@ import numpy as np
 from harness.common import *
 import vlib
 
-LEVEL_TEXT = ('Lean 4 theorems, for all cubes/patterns/oversampling/frames/gains: collected charge is the bilinear wavelength sum and '
-              'is representation-independent; the Bayer mosaic (np.tile then np.repeat on both axes) has the image shape exactly '
-              'when the size is a multiple of d*os and assigns to sub-pixel (i,j) the colour pattern[(i/os)%d][(j/os)%d]; equal '
-              'QEs reproduce the monochrome result and the channels sum to the flat image; DN = max 0 (floor (gain polynomial at '
-              'the clipped count)) for the four gain forms, non-negative, monotone for non-negative coefficients, warning iff a '
-              'pixel exceeds capacity. Hand model checked against lentil.detector on exact dyadic data (partial: see note).')
+LEVEL_TEXT = ('partial. Lean 4 theorems, for all cubes/patterns/oversampling/frames/gains: collected charge is the bilinear wavelength sum; scalar, '
+              'vector and Spectrum efficiencies agree when they denote the same flat efficiency, the Spectrum branch being DERIVED from a model of '
+              'Spectrum.sample (unit factor regenerated from radiometry.py + linear interpolation), and Spectrum.sample is invariant under the '
+              'unit of the request; format_bayer_string refuses exactly foreign letters / non-square lengths and lays the pattern out row-major; '
+              'the Bayer mosaic (np.tile then np.repeat on both axes) has the image shape when the size is a multiple of d*os (one-row '
+              'non-multiples are broadcast to an empty result by NumPy: modelled, outside the quantifier) and assigns to sub-pixel (i,j) the colour '
+              'pattern[(i/os)%d][(j/os)%d]; equal QEs reproduce the monochrome result and the channels sum to the flat image; DN = max 0 (floor '
+              '(gain polynomial at the clipped count)) for the four gain forms, never rounded up, non-negative, monotone for every gain curve that '
+              'is non-decreasing on [0, cap], warning iff a pixel exceeds capacity. Hand model checked against lentil.detector on exact dyadic data.')
 LEVEL_NOTE = ('partial: "input frame untouched" and "requested dtype" are observed by the correspondence (read-only, snapshotted '
-              'frames; dtype compared) and by the regenerated effect table of C10, not proved about NumPy; Spectrum.sample is a '
-              'contract (C13/C15); float rounding is not modelled (test data is dyadic so float64 is exact).')
+              'frames; dtype compared) and by the regenerated effect table of C10, not proved about NumPy; a non-flat Spectrum QE agrees with a '
+              'vector only through the sampled correspondence (the theorem covers flat spectra and unit invariance); float rounding is not '
+              'modelled (test data is dyadic so float64 is exact); adc/bayer index bookkeeping is hand-modelled + pinned, not translated.')
 TECHNIQUE = 'Lean 4 proof (omega/Int.ediv-emod, ordered-field algebra, Int.floor) over a hand model with exact differential correspondence'
-GEN = ['Effects']
+GEN = ['Effects', 'Units']
 OPS = ['C16']
-RULE = ('cases: collect_charge on cubes (1..4 slices, shapes 1..5, dyadic signed photons, 2-D input), QE as scalar / vector / Spectrum '
+RULE = ('extremes stream (12 per quick run): wavelengths a hair inside/outside the QE band in m/um/nm/angstrom, gain values 2^-k below an '
+        'integer; Bayer sizes with only the rows, only the columns, or a single row/column off the multiple; cases: collect_charge on cubes (1..4 slices, shapes 1..5, dyadic signed photons, 2-D input), QE as scalar / vector / Spectrum '
         'in nm, um, m, angstrom (grid and sample units independent); Bayer: patterns d=1..3 with random colours (upper/lower case), '
         'os=1..5, image = (d*os*a) x (d*os*b), plus sizes that are not multiples and malformed pattern strings; adc: frames 1..5 '
         'with negatives and over-capacity values (float and integer dtypes, read-only), four gain forms with dyadic coefficients '
@@ -34,7 +39,8 @@ TRUSTED = ['np.einsum(ijk,i->jk) is the sum over the first axis; np.tile/np.repe
 UNPROVEN = ['adc leaves the input frame untouched: sampled (frame frozen read-only and snapshotted byte-for-byte on every adc case) and '
             'tied to the regenerated effect table Gen/Effects.lean (theorem adc_has_no_write_site), not proved about NumPy',
             'output dtype equals the requested dtype: sampled (compared on every adc case); DN must be representable in the dtype',
-            'Spectrum QE "in any wavelength unit": the model takes the sampled vector; unit handling of Spectrum.sample is C13/C14']
+            'a NON-flat Spectrum QE equals the vector of its samples: by the correspondence only (the model now samples the Spectrum itself with '
+            'the regenerated unit table; theorems cover flat spectra and invariance under the unit of the request)']
 ASSUMPTIONS = ['saturation_capacity 0 is treated like None by the code (`if saturation_capacity:`) and by the model',
                'integer electron frames: the powers x**order must be representable in the frame dtype (NumPy wraps silently: '
                'adc(int16 [[58]], gain=[0.5, 0, 1.25]) returns 0, not 97628); float overflow/rounding likewise not modelled',
@@ -42,6 +48,9 @@ ASSUMPTIONS = ['saturation_capacity 0 is treated like None by the code (`if satu
                'accepted (NumPy float64 x**3 is not correctly rounded: 77.0**3 = 456532.99999999994)',
                'adc_monotone: any gain curve non-decreasing on [0, cap] (hypothesis on the curve) and inputs >= 0 (a polynomial with an even '
                'power is not increasing on negatives); for scalar/per-pixel gain >= 0 monotone on all inputs',
+               'collect_charge_bayer on a one-row or one-column image whose size is not a multiple of pattern*oversample returns an EMPTY array '
+               '(NumPy broadcasts the size-1 axis against the empty mosaic) instead of raising — outside the property quantifier ("image sizes '
+               'that are multiples of the pattern"); modelled (bayerShape, theorem bayer_one_row_broadcasts_empty), accepted by the oracle, reported',
                'a single photon slice (or 2-D image) given together with nw > 1 wavelengths/efficiencies is broadcast by einsum to '
                'photons * sum(qe) instead of being refused: model and oracle follow the code; reported as questionable']
 
@@ -95,8 +104,12 @@ def gen_bayer(rng, d=None, os_=None, pattern=None):
     if d * os_ >= 9: a, b = 1, int(rng.integers(1, 3))
     R, C = d * os_ * a, d * os_ * b
     bad_size = rng.integers(0, 12) == 0
-    if bad_size:
-        R += int(rng.integers(1, d * os_)) if d * os_ > 1 else 0
+    if bad_size and d * os_ > 1:
+        r = int(rng.integers(0, 4))
+        if r == 0: R += int(rng.integers(1, d * os_))
+        elif r == 1: C += int(rng.integers(1, d * os_))                 # only the columns are off
+        elif r == 2: R = 1                                                # one-row image: NumPy broadcasts against the (empty) mosaic
+        else: C = 1
     nw = int(rng.integers(1, 4))
     wave = _waves(rng, nw)
     pattern = pattern or ''.join('RGB'[int(x)] for x in rng.integers(0, 3, d * d))
@@ -329,6 +342,8 @@ def impl(c):
             args = (img, _wave(c), _qe_obj(c['qe_r'], lentil), _qe_obj(c['qe_g'], lentil), _qe_obj(c['qe_b'], lentil), c['pattern'])
             flat = D.collect_charge_bayer(*args, oversample=c['os'], waveunit=c['waveunit'])
             ch = D.collect_charge_bayer(*args, oversample=c['os'], waveunit=c['waveunit'], flatten=False)
+            if list(flat.shape) != [R, C]:
+                return {'shape': list(flat.shape), 'broadcast': True, 'size': int(flat.size), 'untouched': img.tobytes() == snap}
             res = {'shape': list(flat.shape), 'flat': _pairs(flat), 'r': _pairs(ch[0]), 'g': _pairs(ch[1]), 'b': _pairs(ch[2]),
                    'untouched': img.tobytes() == snap}
             if c.get('same_qe'):
@@ -371,8 +386,18 @@ def _qe_ref(q, wave_nm, nw):
         out.append(v[k] + (v[k + 1] - v[k]) * Fr(w - g[k], g[k + 1] - g[k]))
     return out
 
-def _qe_req(q, wave_nm, nw):
+def _ratlist(fr):
+    den = 1
+    for r in fr: den = den * r.denominator // math.gcd(den, r.denominator)
+    return {'num': [int(r * den) for r in fr], 'den': den}
+
+def _qe_req(q, wave_nm, nw, waveunit=None):
     if q['kind'] != 'spectrum': return {'kind': q['kind'], 'num': q['num'], 'den': q['den']}
+    if waveunit is not None:
+        # the Spectrum object itself goes to the model: grid in its own unit, the call's wavelengths in the call's unit; the model
+        # converts with the regenerated unit table and interpolates (Model/Detector.lean spectrumSample)
+        return {'kind': 'spectrumobj', 'num': q['val']['num'], 'den': q['val']['den'], 'su': q['unit'], 'wu': waveunit,
+                'grid': _ratlist([Fr(g) * UNITS[q['unit']] for g in q['grid_nm']]), 'wave': _ratlist([Fr(w) * UNITS[waveunit] for w in wave_nm])}
     ref = _qe_ref(q, wave_nm, nw)
     den = 1
     for r in ref: den = den * r.denominator // math.gcd(den, r.denominator)
@@ -381,10 +406,10 @@ def _qe_req(q, wave_nm, nw):
 def requests(c, io):
     k = c['kind']
     if k == 'collect':
-        return [{'op': 'det.collect', 'nw': c['nw'], 'ns': c.get('ns', c['nw']), 'shape': c['shape'], 'img': c['img'], 'qe': _qe_req(c['qe'], c['wave_nm'], c['nw'])}]
-    if k == 'bayer':
+        return [{'op': 'det.collect', 'nw': c['nw'], 'ns': c.get('ns', c['nw']), 'shape': c['shape'], 'img': c['img'], 'qe': _qe_req(c['qe'], c['wave_nm'], c['nw'], c['waveunit'])}]
+    if k in ('bayer', 'badpattern'):
         return [{'op': 'det.bayer', 'nw': c['nw'], 'shape': c['shape'], 'img': c['img'], 'd': c['d'], 'os': c['os'],
-                 'pattern': c['pattern'].upper(), **{x: _qe_req(c[x], c['wave_nm'], c['nw']) for x in ('qe_r', 'qe_g', 'qe_b')}}]
+                 'pattern': c['pattern'], **{x: _qe_req(c[x], c['wave_nm'], c['nw'], c['waveunit']) for x in ('qe_r', 'qe_g', 'qe_b')}}]
     if k == 'adc':
         return [{'op': 'det.adc', 'shape': c['shape'], 'img': c['img'], 'gain': c['gain'], 'cap': c['cap'], 'warn': c['warn']}]
     return []
@@ -408,7 +433,6 @@ def _mfr(m): return [Fr(n, d) for n, d in zip(m['num'], m['den'])]
 
 def compare(c, io, mo):
     k = c['kind']
-    if k == 'badpattern': return None
     m = mo[0]
     if 'exc' in io:
         if m.get('ok'): return f"implementation raised {io['exc']}, model answered"
@@ -418,6 +442,8 @@ def compare(c, io, mo):
         if io['shape'] != c['shape']: return f"shape {io['shape']}"
         return _cmp_img(c, io['out'], _mfr(m['out']), 'electrons')
     if k == 'bayer':
+        if io.get('broadcast') or 'broadcast_shape' in m:
+            return None if io.get('shape') == m.get('broadcast_shape') else f"broadcast result shape: implementation {io.get('shape')}, model {m.get('broadcast_shape')}"
         if io['shape'] != c['shape']: return f"shape {io['shape']}"
         for key in ('flat', 'r', 'g', 'b'):
             d = _cmp_img(c, io[key], _mfr(m[key]), key)
@@ -454,7 +480,11 @@ def oracle(c, io):
     if k == 'bayer':
         d, os_ = c['d'], c['os']
         if R % (d * os_) or C % (d * os_):
-            return None if io.get('exc') == 'ValueError' else 'image size is not a multiple of pattern*oversample but was accepted'
+            if io.get('exc') == 'ValueError': return None
+            # outside the quantifier (sizes that are multiples of the pattern): a one-row/one-column image is broadcast against an empty
+            # mosaic and comes back EMPTY instead of being refused (reported); anything else that is accepted is a violation
+            if (R == 1 or C == 1) and io.get('broadcast') and io.get('size') == 0: return None
+            return 'image size is not a multiple of pattern*oversample but was accepted'
         if 'exc' in io: return f"collect_charge_bayer raised {io['exc']}: {io.get('msg')}"
         if not io['untouched']: return 'collect_charge_bayer modified the photon cube'
         x = _fr(c['img']); pat = c['pattern'].upper()
